@@ -101,7 +101,23 @@ pub fn iter_laws<X, I: ExactSizeIterator<Item = X>>(mk: impl Fn() -> I, show: im
     if last.as_ref() != want.last() {
         return Some(format!("last() = {:?} != {:?}", last, want.last()));
     }
-    for k in 0..=n {
+    // every position of a short sequence; of a long one the ends, the middle and the positions
+    // around every power of two (the laws stay linear in n)
+    let ks: Vec<usize> = if n <= 64 {
+        (0..=n).collect()
+    } else {
+        let mut v = vec![0, 1, 2, n / 2, n - 2, n - 1, n];
+        let mut p = 4usize;
+        while p <= n {
+            v.extend([p - 1, p, p + 1]);
+            p *= 2;
+        }
+        v.retain(|k| *k <= n);
+        v.sort();
+        v.dedup();
+        v
+    };
+    for k in ks {
         let got = mk().nth(k).map(&show);
         if got.as_ref() != want.get(k) {
             return Some(format!("nth({}) = {:?} != {:?}", k, got, want.get(k)));
